@@ -52,4 +52,62 @@ def normalizeLit [Add K] [Mul K] [Zero K] [Div K] [DecidableEq K] (rabs : K → 
     let d := (sq.map rabs).expandRange sq.rank 1
     zipBcast (fun x y => if y = 0 then x else x / y) v d
 
+/-- `hyperbolic.poincare_to_halfspace(points)` (hyperbolic.py:2052):
+`y = points[..., 0]; v = points[..., 1:]; x2 = normsq(v); denom = x2 + (y-1)*(y-1)`;
+`hs = zeros_like(points); hs[..., :-1] = (-2*v) / denom[..., newaxis]; hs[..., -1] = (1 - x2 - y*y) / denom`.
+(A composition of entrywise ufuncs on two arrays of one shape is written as one binary entrywise function.) -/
+def p2hND [Add K] [Mul K] [Zero K] [One K] [Div K] [Sub K] [Neg K] [OfNat K 2] (x : ND K) :
+    Except String (ND K) :=
+  let n := x.shape.getLastD 0
+  let y := x.selectLast 0
+  let v := x.sliceLast 1 n
+  match normsqND v with
+  | .error e => .error e
+  | .ok x2 =>
+    match zipBcast (fun a t => a + (t - 1) * (t - 1)) x2 y, zipBcast (fun a t => 1 - a - t * t) x2 y with
+    | .ok denom, .ok num =>
+      match zipBcast (· / ·) (v.map fun t => -2 * t) (denom.expandRange denom.rank 1),
+            zipBcast (· / ·) num denom with
+      | .ok A, .ok B => .ok (((full x.shape 0).setLastSlice 0 (n - 1) A).setLastIndex (n - 1) B)
+      | .error e, _ => .error e
+      | _, .error e => .error e
+    | .error e, _ => .error e
+    | _, .error e => .error e
+
+/-- `hyperbolic.halfspace_to_poincare(points)` (hyperbolic.py:2066):
+`y = points[..., -1]; v = points[..., :-1]; x2 = normsq(v); denom = x2 + (y+1)*(y+1)`;
+`pc = zeros_like(points); pc[..., 1:] = (-2*v) / denom[..., newaxis]; pc[..., 0] = (x2 + y*y - 1) / denom` -/
+def h2pND [Add K] [Mul K] [Zero K] [One K] [Div K] [Sub K] [Neg K] [OfNat K 2] (x : ND K) :
+    Except String (ND K) :=
+  let n := x.shape.getLastD 0
+  let y := x.selectLast (n - 1)
+  let v := x.sliceLast 0 (n - 1)
+  match normsqND v with
+  | .error e => .error e
+  | .ok x2 =>
+    match zipBcast (fun a t => a + (t + 1) * (t + 1)) x2 y, zipBcast (fun a t => a + t * t - 1) x2 y with
+    | .ok denom, .ok num =>
+      match zipBcast (· / ·) (v.map fun t => -2 * t) (denom.expandRange denom.rank 1),
+            zipBcast (· / ·) num denom with
+      | .ok A, .ok B => .ok (((full x.shape 0).setLastSlice 1 n A).setLastIndex 0 B)
+      | .error e, _ => .error e
+      | _, .error e => .error e
+    | .error e, _ => .error e
+    | _, .error e => .error e
+
+/-- `projective.affine_coords(points, chart_index=c)` past the chart test (projective.py:1496):
+`np.delete((apoints.T / apoints.T[c]).T, c, axis=-1)` -/
+def affineCoordsND [Div K] (x : ND K) (c : Nat) : Except String (ND K) :=
+  match zipBcast (· / ·) x.T (x.T.sub [c]) with
+  | .error e => .error e
+  | .ok q => .ok (q.T.deleteLast c)
+
+/-- `projective.projective_coords(points, chart_index=c)` (projective.py:1509):
+`result = zeros(shape[:-1] + (n+1,)); indices = arange(n); indices[c:] += 1`;
+`result[..., indices] = coords; result[..., c] = 1` -/
+def projCoordsND [Zero K] [One K] (a : ND K) (c : Nat) : ND K :=
+  let n := a.shape.getLastD 0
+  let indices := (List.range n).map fun j => if j < c then j else j + 1
+  ((full (a.shape.dropLast ++ [n + 1]) (0 : K)).setLastIdx indices a).setLastConst c 1
+
 end GT.Act
